@@ -85,7 +85,7 @@ func (e *EcdsGenerator) Generate(proxy *model.Proxy, w *model.WatchedResource, r
 	// When referenced configs are ONLY updated (like secret update), we should push
 	// if the referenced config is relevant for ECDS. A secret update is relevant
 	// only if it is referred via WASM plugin.
-	if onlyReferencedConfigsUpdated(req) {
+	if !req.Forced && onlyReferencedConfigsUpdated(req) {
 		updatedSecrets := model.ConfigsOfKind(req.ConfigsUpdated, kind.Secret)
 		needsPush := false
 		for _, sr := range wasmSecrets {
